@@ -172,7 +172,7 @@ def simplify(case):
 # -----------------------------------------------------------------------------------------------
 def gen_base(rnd):
     isa, info = gen.gen_isa(rnd)
-    fmt = rnd.choice(['json', 'json', 'yaml'])
+    fmt = info['fmt']
     pg = gen.ProgGen(rnd, info, max_lines=18)
     prog = pg.generate() + [gen.SENTINEL]
     case = {'isa_text': gen.isa_text(isa, fmt), 'isa_name': 'isa.' + fmt, 'prog': prog, 'opts': [], 'binary': True}
